@@ -439,7 +439,6 @@ theorem renameProcess_same {s : St} (hk : ∀ k p, alGet s.procs k = some p → 
     · exact Same.refl s
     · cases hrec : (if s.cfg.reuse then procPoolTake s.procPool name else none) with
       | none =>
-        simp only [hrec]
         have h1 : Same s (setTName (setPName s p.h name) p.main.h name) := Same.of_eq rfl rfl rfl rfl
         refine h1.trans (Same.put (p0 := p) hp ?_)
         refine PObs.ext' rfl rfl (fun b => ?_)
@@ -447,7 +446,6 @@ theorem renameProcess_same {s : St} (hk : ∀ k p, alGet s.procs k = some p → 
         refine tq_congr (p := p) ?_ ?_ ?_ b <;> rfl
       | some rp =>
         obtain ⟨r, pool'⟩ := rp
-        simp only [hrec]
         have key : ∀ pp, Same s (putProc { s with procPool := pp }
             { p with h := r.ph, name := some name, main := { p.main with h := r.mainTh, name := some name },
                      pool := r.pool }) := by
